@@ -2674,6 +2674,12 @@ class Mailbox:
                 (time.monotonic() - start_time),
             )
             try:
+                # Nothing to copy from an empty mailbox (a UID set is allowed
+                # to name messages that do not exist.)
+                #
+                if not self.msg_keys:
+                    return [], []
+
                 max_msg_key = self.msg_keys[-1]
                 uid_vv, uid_max = self.get_uid_from_msg(max_msg_key)
                 if uid_vv is None or uid_vv != self.uid_vv or uid_max is None:
